@@ -881,8 +881,8 @@ func deref(n *node) {
 		fnext := getExec(n.fnext)
 		n.exec = func(f *frame) bltn {
 			r := value(f).Elem()
+			getFrame(f, l).data[i] = r
 			if r.Bool() {
-				getFrame(f, l).data[i] = r
 				return tnext
 			}
 			return fnext
